@@ -149,7 +149,10 @@ def gen_case(rng: random.Random, scenario: Optional[str] = None, thorough: bool 
         intent['listed'] = True
         case['creds'] = [{'kind': 'key', 'key': sk, 'path': rng.choice(['std', 'forged']), 'signer': sk}]
     elif sc == 'plain-untrusted':
-        add_lines(rng, case, lines, '', wrong, True)
+        if rng.random() < 0.3:
+            add_lines(rng, case, lines, '@cert-authority', sk, True)   # the key is trusted as a CA only
+        else:
+            add_lines(rng, case, lines, '', wrong, True)
         case['creds'] = [{'kind': 'key', 'key': sk, 'path': 'std', 'signer': sk}]
     elif sc == 'plain-unlisted-host':
         intent['style'] = add_lines(rng, case, lines, '', sk, False)
